@@ -10,7 +10,7 @@
     recorded entries have strictly increasing stamps and lines shorter than
     the entry limit. *)
 From Coq Require Import ZArith NArith List Bool.
-From AGH Require Import Base.Run Model.QLogFile Model.QLog Proofs.QLog.
+From AGH Require Import Base.Run Model.QLogFile Model.QLog Proofs.QLog Proofs.QLogCursor.
 Import ListNotations.
 Local Open Scope Z_scope.
 
@@ -136,3 +136,70 @@ Print Assumptions C07_quickmatch_over_approximates.
 Theorem C07_no_panic : forall me bf s q, handle me bf s q <> Panic.
 Proof. exact no_panic. Qed.
 Print Assumptions C07_no_panic.
+
+(** ** Cursor (older_than) paging
+
+    Vocabulary (Proofs/QLogCursor.v): [wfc me s] = well formed, stamps
+    positive, existing files not empty, everything under 2^63 bytes;
+    [hist_bytes ops] = bytes the history writes; [cursor_ok s c] = no cursor,
+    or the stamp of an entry of the log; [with_older p c] = the request [p]
+    with cursor [c]; [chain me bf s p fuel c] = the pages a client gets that
+    starts with cursor [c] and, as long as the response carries a non-empty
+    [oldest], asks again with it (None = out of fuel / failed request). *)
+
+(** Every history with strictly increasing positive stamps, lines under the
+    entry limit and less than 2^63 bytes written leads to such a state. *)
+Theorem C07_history_wfc : forall me c ops lo,
+  0 <= lo -> hist_ok me lo ops -> hist_bytes ops < 2 ^ 63 -> wfc me (run c ops).
+Proof. exact wfc_run. Qed.
+Print Assumptions C07_history_wfc.
+
+(** One request with a cursor the API handed out (or none), offset 0, any
+    limit >= 1, ANY scan window, any criteria, the cursor entry sitting in
+    memory, in the current or in the rotated file: the page is a prefix of
+    the visible log under that cursor with at most [limit] entries; either
+    the returned cursor is empty and nothing is left, or it is the stamp of a
+    log entry older than the request's cursor and what is left of the
+    visible log is exactly what is older than it. *)
+Theorem C07_cursor_page : forall me bf s p,
+  0 < me <= bf -> wfc me s -> cursor_ok s (p_older p) -> p_offset p = 0 -> 1 <= p_limit p ->
+  exists es o rest, search me bf s p = Ok es o /\ vis s p = es ++ rest /\ lenZ es <= p_limit p /\
+    ((o = 0 /\ rest = []) \/
+     (o <> 0 /\ (exists y, In y (flatv s) /\ e_time y = o /\ older_ok p y = true) /\
+      rest = filter (fun e => e_time e <? o) (vis s p))).
+Proof. exact search_cursor_step. Qed.
+Print Assumptions C07_cursor_page.
+
+(** Following the cursors from the first page ends (within one request per
+    log entry plus one) and the pages concatenate exactly to the visible log:
+    no gap, no duplicate, same order; no page exceeds the limit. *)
+Theorem C07_cursor_paging_state : forall me bf s p,
+  0 < me <= bf -> wfc me s -> p_older p = None -> p_offset p = 0 -> 1 <= p_limit p ->
+  forall fuel, (length (flatv s) < fuel)%nat ->
+  exists pages, chain me bf s p fuel None = Some pages /\
+    concat pages = vis s p /\ Forall (fun pg => lenZ pg <= p_limit p) pages.
+Proof. exact cursor_paging. Qed.
+Print Assumptions C07_cursor_paging_state.
+
+(** The same from any cursor the API handed out. *)
+Theorem C07_cursor_paging_from : forall me bf s p,
+  0 < me <= bf -> wfc me s -> p_offset p = 0 -> 1 <= p_limit p ->
+  forall fuel c, cursor_ok s c -> (length (filter (older_b c) (flatv s)) < fuel)%nat ->
+  exists pages, chain me bf s p fuel c = Some pages /\
+    concat pages = vis s (with_older p c) /\ Forall (fun pg => lenZ pg <= p_limit p) pages.
+Proof. exact chain_spec. Qed.
+Print Assumptions C07_cursor_paging_from.
+
+(** The property's clause, over histories: after ANY history of add / flush /
+    rotate / clear / configuration change / restart with strictly increasing
+    stamps, for every page size >= 1, every scan window and every criteria,
+    the cursor chain partitions the visible log (which has no duplicates). *)
+Theorem C07_cursor_paging : forall me bf c ops lo p,
+  0 < me <= bf -> 0 <= lo -> hist_ok me lo ops -> hist_bytes ops < 2 ^ 63 ->
+  p_older p = None -> p_offset p = 0 -> 1 <= p_limit p ->
+  forall fuel, (length (flatv (run c ops)) < fuel)%nat ->
+  exists pages, chain me bf (run c ops) p fuel None = Some pages /\
+    concat pages = vis (run c ops) p /\ NoDup (vis (run c ops) p) /\
+    Forall (fun pg => lenZ pg <= p_limit p) pages.
+Proof. exact cursor_paging_run. Qed.
+Print Assumptions C07_cursor_paging.
